@@ -18,6 +18,8 @@ extra = {
  'j': '\nADDITIONAL REQUIREMENT: the defect must only show when TWO DIFFERENT collection kinds or API layers meet: a collection built from / compared with / merged with / formatted inside a collection of ANOTHER kind (a List from a Set or a Queue, a Catalog from a Map, a Stack inside a List, an Array as a Set element, an Association as a value), or the same operation reached through the module-level wrapper functions in v4/Module.go instead of the class in v4/collection. The same operation within one kind through the class API stays correct.',
  'k': '\nADDITIONAL REQUIREMENT: assume the maintainers already run a model-based random test for this property: up to 40 random operations on a small collection of small ints or short strings, every observer compared with a reference model after every step, plus a few thousand random inputs. Your change must SURVIVE such a test and still break the property for some realistic use: think of what such a test does not vary (rare argument combinations, sizes beyond a few dozen, long idle sequences, particular orders of construction, specific Unicode/number formats, interplay of three or more calls).',
  'l': '\nADDITIONAL REQUIREMENT: write the kind of slip a maintainer makes during an ordinary REFACTORING: extracting a helper and passing the wrong variable, inverting a condition while simplifying it, merging two similar branches that differed in one detail, hoisting a statement out of a loop, changing a loop bound or a slice expression, replacing a hand-written loop by a library call with slightly different semantics. It must read like a clean-up and must be DIFFERENT from everything in the already-used list (another function or another mechanism).',
+ 'n': '\nADDITIONAL REQUIREMENT: do NOT edit the file a reviewer would associate with this property first. Put the change into a SHARED DEPENDENCY that the property only reaches indirectly: the agent package (collator, sorter, iterator) for a collection property, the underlying array/list/map that a set, stack, queue or catalog is built on, the scanner or formatter helpers for a parser/constructor property, the collection classes for a notation property, Package.go/Module.go helpers. The change must look reasonable where it is made, keep that dependency\'s own obvious behaviour intact, and break THIS property only through the way the dependent code uses it.',
+ 'p': '\nADDITIONAL REQUIREMENT: read the QUANTIFIER of the property carefully and aim at the corner of the stated domain that a generator samples least: the far end of a size range, the least usual configuration or argument position, the rarest of the listed element types, the combination of two listed dimensions that are usually varied one at a time, an operand that is the same object as another, the last of many steps. The defect must be invisible on the typical middle of the domain and undeniable on that corner (still inside the stated domain).',
  'o': '\nADDITIONAL REQUIREMENT: look at the git history of the worktree (git log --oneline, git show <commit>): several commits whose message starts with "fix:" repaired real defects. Write a REGRESSION: a change that brings back a VARIANT of one of those defects for this property -- not a plain revert of the fix (the exact original failing input must still work), but the same kind of mistake on a neighbouring path, argument form, boundary or kind that the fix did not have to touch, or a later "simplification" of the fixed code that is right for the original input and wrong for a related one.',
  'c': '\nADDITIONAL REQUIREMENT: the change must be a one-token or one-line edit (an operator, a constant, an index expression, an omitted statement) somewhere OTHER than the function a reviewer would look at first; it must only matter for inputs that are large, deeply nested, or at a boundary.',
 }[variant]
